@@ -9,7 +9,7 @@ THEOREMS = [P + n for n in [
     "link_places_reachable_once", "unreferenced_not_included", "link_address_recorded", "link_bytes_preserved",
     "link_bytes_are_relocated", "jal_bound_to_final", "r_mips_26", "unresolved_is_error",
     "program_reference_unresolved_is_error", "unsupported_object_is_error", "verify_accepts_only_elf32_le",
-    "link_terminates", "j_relocation_ignored_counterexample",
+    "link_terminates", "readers_never_read_outside", "j_relocation_ignored_counterexample",
     "section_symbol_call_counterexample"]]
 RULE = ("link cases = generated ELF32 relocatable objects / ar archives (1..4 objects, 1..8 functions, call graphs: "
         "random, chain, cycle, self call, diamond, star, mutual recursion, repeated calls; functions at offset 0 and "
